@@ -130,8 +130,11 @@ func c16Worker(prop, tier string, seed uint64, from, to, stride int, deadline in
 				for vi, v := range []string{"13.0.0", "13.1.0", "13.2.0", "13.3.0", "13.4.0", "13.5.0"} {
 					faults = append(faults, world.DefFault{Kind: "old_long_names", Repl: v, Seed: uint64(vi)})
 				}
+				faults = append(faults, world.DefFault{Kind: "old_long_names", Seed: 3}) // also valid at the current version
 			case h.SpecVersion != "" && !strings.HasPrefix(h.SpecVersion, "13.6"):
-				faults = append(faults, world.DefFault{Kind: "old_long_names", Seed: 0}, world.DefFault{Kind: "old_long_names", Seed: 1})
+				faults = append(faults, world.DefFault{Kind: "old_long_names", Seed: 0}, world.DefFault{Kind: "old_long_names", Seed: 1}, world.DefFault{Kind: "old_long_names", Seed: 2}, world.DefFault{Kind: "old_long_names", Seed: 3})
+			case h.SpecVersion != "":
+				faults = append(faults, world.DefFault{Kind: "old_long_names", Seed: 3}) // names within the limits: valid at the current version too
 			}
 		}
 		nm := nmulti
